@@ -73,4 +73,5 @@ def run(tier, seed, procs):
     cols += drive.pool_map(history.shard_history,
                            [(MOD, runs, steps, seed * 1000 + 500 + i, {}) for i in range(hs)], procs)
     cols += drive.pool_map(drive.shard_enum_stale, [(MOD, 'item', i, 2 if quick else 3) for i in range(9)], procs)
+    cols += drive.pool_map(history.shard_returning, [MOD], 1)
     return drive.merge_all(PROP, cols)
